@@ -179,3 +179,19 @@ def attr_stores_chain(fi: FuncInfo, obj: str, chain: Tuple[str, ...]) -> List[as
         if isinstance(s, ast.Assign) and any(unparse(t) == want for t in s.targets):
             out.append(s)
     return out
+
+
+def bind_call(call: ast.Call, callee: FuncInfo, skip_self: bool = False) -> Optional[Dict[str, ast.AST]]:
+    """Parameter name -> argument expression for `call` against `callee`'s signature (None when * / ** arguments are involved)."""
+    if any(isinstance(a, ast.Starred) for a in call.args) or any(k.arg is None for k in call.keywords):
+        return None
+    a = callee.node.args
+    params = [p.arg for p in a.posonlyargs + a.args]
+    if skip_self and params and params[0] in ("self", "cls"):
+        params = params[1:]
+    out: Dict[str, ast.AST] = {}
+    for p, v in zip(params, call.args):
+        out[p] = v
+    for k in call.keywords:
+        out[k.arg] = k.value
+    return out
